@@ -44,8 +44,8 @@ class Ctx:
             if not ok:
                 unsupported = [l for l in msg.splitlines() if l.startswith("TRANSLATOR-UNSUPPORTED")]
                 detail = common.first_error(log)
-                if unsupported and "Translator_unsupported" in log:
-                    detail = "; ".join(unsupported) + " :: " + detail
+                if unsupported:
+                    detail = "; ".join(u[:400] for u in unsupported[:4]) + " :: " + detail
                 self.broken.append(("proof:" + props_file, detail))
                 return False
             rc, out = common.coqc(props_file)
